@@ -132,6 +132,27 @@ pub fn build_cases(cfg: &Cfg) -> Vec<Case> {
         p2.rels.insert(0, vec![]);
         cases.push(Case { name: format!("{} + empty relator", g.name), pres: p2, k: 3 });
     }
+    // redundant generators: a trivial generator (relator of length 1, also its square and fourth power, as
+    // the library's own presentations of orbifold groups contain them) inserted as generator 1 or as the
+    // last generator - the shape that makes deductions fill later rows before earlier ones
+    for g in groupcorpus::corpus().into_iter().filter(|g| g.pres.ngens <= 2).take(cfg.tier.pick(16, 40)) {
+        let n = g.pres.ngens as i64;
+        // trivial generator first: shift all others up by one
+        let mut rels: Vec<Vec<i64>> = vec![vec![1], vec![1, 1], vec![1, 1, 1, 1]];
+        rels.extend(g.pres.rels.iter().map(|w| w.iter().map(|&x| if x > 0 { x + 1 } else { x - 1 }).collect::<Vec<i64>>()));
+        cases.push(Case { name: format!("{} with a trivial generator inserted first", g.name), pres: Pres { ngens: g.pres.ngens + 1, rels }, k: cfg.tier.pick(4, 5) });
+        let mut rels2 = g.pres.rels.clone();
+        rels2.push(vec![n + 1]);
+        cases.push(Case { name: format!("{} with a trivial generator appended", g.name), pres: Pres { ngens: g.pres.ngens + 1, rels: rels2 }, k: cfg.tier.pick(4, 5) });
+    }
+    // cyclic groups with a trivial extra generator, the shape of the library's own presentation of the group
+    // of <1.1:4 3:2 4,2 4,3 4,3 4:4 1,4,4 4> (Z4 = <a,b | a, a^2, a^4, b^4>)
+    for n in 2..=cfg.tier.pick(7, 10) {
+        let pw = |g: i64, k: usize| -> Vec<i64> { vec![g; k] };
+        cases.push(Case { name: format!("Z{} = <a,b | a, a^2, a^4, b^{}>", n, n), pres: Pres { ngens: 2, rels: vec![vec![1], pw(1, 2), pw(1, 4), pw(2, n)] }, k: n.min(cfg.tier.pick(6, 8)) });
+        cases.push(Case { name: format!("Z{} = <a,b | a^{}, b>", n, n), pres: Pres { ngens: 2, rels: vec![pw(1, n), vec![2]] }, k: n.min(cfg.tier.pick(6, 8)) });
+        cases.push(Case { name: format!("Z{} = <a,b,c | a, b^{}, c>", n, n), pres: Pres { ngens: 3, rels: vec![vec![1], pw(2, n), vec![3]] }, k: n.min(5) });
+    }
     // Z^4
     let mut z4 = vec![];
     for a in 1..=4i64 {
@@ -164,10 +185,9 @@ pub fn build_cases(cfg: &Cfg) -> Vec<Case> {
         });
     }
     let mut count3 = 0;
-    for s in gen::connected_sets_upto(3, 2) {
+    for s in gen::connected_sets_upto(3, cfg.tier.pick(3, 4)) {
         gen::for_all_branchings(&s, &|_, _| vec![1, 2, 3, 4, 6], &mut |x| {
-            if count3 < cfg.tier.pick(200, 1000) && gen::locally_spherical_3d(x) {
-                count3 += 1;
+            if gen::locally_spherical_3d(x) && { count3 += 1; count3 % cfg.tier.pick(5, 9) == 0 } {
                 if let Ok(fg) = observe(|| {
                     let fg = rust_dsymbols::fundamental_group::fundamental_group(&to_partial_dsym(x));
                     Pres { ngens: fg.nr_generators(), rels: from_freewords(fg.relators.iter()) }
